@@ -154,7 +154,15 @@ def exhaustive(ctx, payload):
                             nt += 1
         else:
             preds = {"truthy": bool, "len0": lambda x: len(x) == 0 if hasattr(x, "__len__") else False, "always": lambda x: True, "never": lambda x: False}
-            vals = {"absent": None, "none": None, "zero": 0, "empty": [], "false": False, "one": 1, "list": ["a"], "true": True}
+            import pandas as pd
+
+            # temp entries are whatever the algos put there: lists, dicts, and pandas objects (statistics, weights) - empty ones included
+            vals = {
+                "absent": None, "none": None, "zero": 0, "empty": [], "false": False, "one": 1, "list": ["a"], "true": True, "empty_dict": {}, "dict": {"a": 1.0},
+                "empty_series": pd.Series(dtype=float), "series": pd.Series({"a": 1.0}), "empty_index": pd.Index([]), "empty_frame": pd.DataFrame(),
+            }
+            preds = dict(preds)
+            preds["truthy"] = lambda x: bool(len(x)) if hasattr(x, "__len__") else bool(x)
 
             class T(object):
                 pass
